@@ -19,6 +19,7 @@ type FuncResult struct {
 	Inlined     []string
 	NPaths      int
 	Covers      map[string][]coverInst
+	DeclsQF     string
 }
 
 type coverInst struct {
@@ -40,7 +41,7 @@ func (e *Engine) verifyFunc(key string) (res *FuncResult) {
 	x := &Exec{
 		eng: e, fn: fn, spec: spec, decls: NewDecls(), baseArrays: map[string]Sort{},
 		siteCount: map[string]int{}, maxPaths: 6000, assumptions: map[string]bool{},
-		strlits: map[string]Term{}, tags: map[string]int{}, inlined: map[string]bool{}, usedSpecs: map[string]bool{}, leaf: map[string]Comp{},
+		strlits: map[string]Term{}, tags: map[string]int{}, inlined: map[string]bool{}, usedSpecs: map[string]bool{}, leaf: map[string]Comp{}, ordTab: map[*ssa.Function]map[ssa.Instruction]int{},
 	}
 	res.Decls = x.decls
 	defer func() {
